@@ -79,6 +79,7 @@ func oracleC20(c *Case, res *Result) []Violation {
 	var vs []Violation
 	m := Model{}
 	tag := ""
+	nconc := 0
 	cold := false
 	for _, ph := range c.Phases {
 		if ph.Kind == "restart" {
@@ -107,7 +108,9 @@ func oracleC20(c *Case, res *Result) []Violation {
 			if tr == nil {
 				continue
 			}
-			nconc := len(ph.Txns) - 1
+			if n := len(ph.Txns) - 1; n > nconc {
+				nconc = n // the most readers that ran beside a writer so far (a cache entry gone stale in an earlier round stays)
+			}
 			tag = fmt.Sprintf("/concurrent-readers%d", nconc)
 			if cold {
 				tag += "/coldcache"
